@@ -159,6 +159,27 @@ async fn prepare(dir: &Path, server_db: bool) -> Result<Prepared> {
         fsutil::copy_dir(&srv2, &dir.join("state-d2_retrusted_then_revoked"))?;
         states.push("d2_retrusted_then_revoked".to_string());
     }
+    // branch: from d1_d2, every device revoked in one patch
+    {
+        let srv3 = dir.join("server-branch-none");
+        fsutil::copy_dir(&dir.join("state-d1_d2"), &srv3)?;
+        let server = start_server(&srv3, server_db, None, None).await?;
+        fsutil::copy_dir(&dir.join("a-branch"), &dir.join("a-branch-none"))?;
+        let a3 = Dev::open(&dir.join("a-branch-none"), Backend::Fs, account_a, vkit::acct::password()).await?;
+        let dev = Device::connect(a3, 0, &server.origin).await?;
+        {
+            let d1s: DeviceSigner = d1.try_into().map_err(|_| anyhow!("d1 key"))?;
+            let mut acc = dev.account.lock().await;
+            acc.patch_devices_unchecked(&[DeviceEvent::Revoke(d2.public_key()), DeviceEvent::Revoke(d1s.public_key())]).await?;
+        }
+        if dev.sync().await != SyncResult::Ok {
+            return Err(anyhow!("sync of revoke-all failed"));
+        }
+        dev.close().await;
+        server.stop().await;
+        fsutil::copy_dir(&srv3, &dir.join("state-no_trusted_device"))?;
+        states.push("no_trusted_device".to_string());
+    }
     Ok(Prepared {
         dir: dir.to_string_lossy().to_string(),
         account_a: account_a.to_string(),
@@ -368,6 +389,12 @@ async fn run_item(p: &Prepared, it: &Item, work: &Path) -> Value {
                 acc.patch_devices_unchecked(&[DeviceEvent::Trust(again)]).await?;
                 acc.revoke_device(&d2.public_key()).await?;
             }
+            if it.state == "no_trusted_device" {
+                // the account's last devices revoke themselves: D2, then D1
+                let d1: DeviceSigner = p.d1.try_into().map_err(|_| anyhow!("d1 key"))?;
+                let mut acc = dev.account.lock().await;
+                acc.patch_devices_unchecked(&[DeviceEvent::Revoke(d2.public_key()), DeviceEvent::Revoke(d1.public_key())]).await?;
+            }
             if it.state != "d1_d2" && dev.sync().await != SyncResult::Ok {
                 return Err(anyhow!("live sync after revoke failed"));
             }
@@ -384,7 +411,8 @@ async fn run_item(p: &Prepared, it: &Item, work: &Path) -> Value {
         // non-valid credentials first, valid ones last
         for cred in CREDS.iter() {
             for r in routes(p) {
-                let should_be_valid = a_allowed(&it.access) && (*cred == Cred::Valid || (*cred == Cred::D2 && d2_trusted));
+                let d1_trusted = it.state != "no_trusted_device";
+                let should_be_valid = a_allowed(&it.access) && ((*cred == Cred::Valid && d1_trusted) || (*cred == Cred::D2 && d2_trusted));
                 if r.destructive && should_be_valid {
                     continue;
                 }
@@ -489,7 +517,7 @@ fn rt() -> tokio::runtime::Runtime {
     tokio::runtime::Builder::new_multi_thread().worker_threads(3).enable_all().build().unwrap()
 }
 
-const STATES: [&str; 4] = ["d1", "d1_d2", "d2_revoked", "d2_retrusted_then_revoked"];
+const STATES: [&str; 5] = ["d1", "d1_d2", "d2_revoked", "d2_retrusted_then_revoked", "no_trusted_device"];
 
 fn main() {
     let args = Args::parse();
